@@ -19,7 +19,9 @@ func init() {
 
 var c04PlatformSets = [][]string{nil, nil, {"linux"}, {"windows"}, {"macos"}, {"windows", "macos"}, {"Darwin"}, {"LINUX"},
 	// what `--platform "linux, macos"`, `--platform linux,` or `--platform ""` hand to the engine, and alias spellings
-	{"linux", ""}, {"", "windows"}, {" "}, {""}, {"linux", " macos"}, {"osx"}, {"darwin "}, {"powershell"}, {"Windows", ""}}
+	{"linux", ""}, {"", "windows"}, {" "}, {""}, {"linux", " macos"}, {"osx"}, {"darwin "}, {"powershell"}, {"Windows", ""},
+	// platforms no list of "known" names is likely to hold: whoever asks for them is not asking for the host's commands
+	{"freebsd"}, {"solaris", "netbsd"}, {"haiku"}, {"android", "wsl"}, {"plan9", "FreeBSD"}}
 
 func c04DB(ctx *Ctx, k int) vlib.DBSpec {
 	return vlib.DBSpec{N: []int{6, 15, 30, 60, 150}[k%5], TieHeavy: k%3 == 0, Platforms: 2 - (k%5)/4, Pipelines: true,
@@ -424,16 +426,37 @@ func engineFiltersCLI(ctx *Ctx) {
 		dbp := filepath.Join(base, "db.yml")
 		vlib.WriteYAML(dbp, cmds)
 		words := vlib.DBWords(cmds)
-		for qi := 0; qi < ctx.Pick(8, 12); qi++ {
+		nq := ctx.Pick(8, 12)
+		for qi := 0; qi < nq+3; qi++ {
 			q := vlib.GenQuery(r, words, 1+r.Intn(2), []int{0, 2}[qi%2])
 			if strings.TrimSpace(q) == "" {
 				continue
 			}
 			plats := c04PlatformSets[r.Intn(len(c04PlatformSets))]
+			if qi >= nq {
+				// a platform outside every list of known names, asked for with a word of an entry that is declared for this host only
+				plats = c04PlatformSets[len(c04PlatformSets)-1-r.Intn(5)]
+				var hostOnly []string
+				for i := range cmds {
+					if len(cmds[i].Platform) == 1 && strings.EqualFold(cmds[i].Platform[0], runtime.GOOS) {
+						hostOnly = append(hostOnly, strings.Fields(cmds[i].Command+" "+cmds[i].Description)...)
+					}
+				}
+				if len(hostOnly) > 0 {
+					q = hostOnly[r.Intn(len(hostOnly))]
+					if strings.IndexFunc(q, func(c rune) bool { return c >= 'a' && c <= 'z' }) < 0 || strings.ContainsAny(q, "<>|&;$") {
+						q = vlib.GenQuery(r, words, 1, 0)
+					}
+				}
+			}
 			noCross := r.Intn(2) == 0
 			args := []string{"--database", dbp, "--format", "json", "-v", "--no-color", "--limit", "50"}
 			if len(plats) > 0 {
 				args = append(args, "--platform", strings.Join(plats, ","))
+				switch strings.ToLower(plats[0]) {
+				case "freebsd", "solaris", "haiku", "android", "plan9":
+					ctx.R.Path("cli-requests-for-platforms-outside-any-list-of-known-names", 1)
+				}
 			}
 			if noCross {
 				args = append(args, "--no-cross-platform")
